@@ -83,5 +83,5 @@ macro_rules! optstate {
         }
     };
 }
-// @h prop=C02 unwind=8 timeout=600 mem=12 tier=thorough kind=stretch stubs=RandomState::new->fixed_keys what=OptState::push_stack/pop_stack_on_stack_3,pre-depth_1(local-array-backed_buffers)
+// @h prop=C02 unwind=8 timeout=2400 mem=12 tier=thorough kind=stretch stubs=RandomState::new->fixed_keys what=OptState::push_stack/pop_stack_on_stack_3,pre-depth_1(local-array-backed_buffers)
 optstate!(ost_i3_d1, 3, 1);
